@@ -1,7 +1,7 @@
 (* Proofs/TypingNss.v — C20: which string <-> collection conversions coercion can perform.
    Main result: under a computable condition on the tables (true of the live ones), every accepted coercion
-   is related to its input by [nss f20_pairs]: apart from the class pairs of finding F20 no string is split
-   into a collection and no collection is joined into a string. *)
+   is related to its input by [nss A]: apart from the tolerated class pairs A (none, for the live tables) no
+   string is split into a collection and no collection is joined into a string. *)
 From Pydra Require Import Base.Prelude Model.Typing Spec.Typing Proofs.Typing.
 Local Open Scope string_scope.
 
@@ -134,7 +134,6 @@ Variable W : world.
 Variable sac : bool.
 Hypothesis WF : tables_wf T = true.
 Hypothesis TN : tables_nss A T = true.
-Hypothesis A_bytes_list : A CBytes CList = true.       (* MultiInputObj iterates a bytes object *)
 
 Lemma is_coll_class v : is_coll v = true <-> In (class_of v) coll_classes.
 Proof. destruct v as [| | | | | | |f| | |fr|]; try destruct fr; cbn; intuition (try discriminate). Qed.
@@ -356,7 +355,7 @@ Proof.
     + destruct (match iter v with Ok items => map_res (coerce T W sac a) items | Err e => Err e end) as [l|e] eqn:E.
       * inversion H; subst. destruct (iter v) as [items|] eqn:Ei; [|discriminate]. apply map_res_ok in E.
         destruct (iter_kinds _ _ Ei) as [Hs|Hcoll].
-        -- apply nss_allowed. destruct v; try discriminate. exact A_bytes_list.
+        -- destruct v; discriminate.
         -- eapply nss_items; [exact Hcoll|left; reflexivity|].
            eapply Forall2_sources; [|exact (iter_children _ _ Ei Hcoll)|exact E]. intros; eapply IHa; eassumption.
       * destruct e; try discriminate. eapply Hw; [exact H|reflexivity].
